@@ -27,6 +27,13 @@ RESERVED = ['CREATE', 'FALSE', 'FROM', 'INDEX', 'INSERT', 'INTO', 'ON', 'PHRASE'
 PLAIN = ['A', 'B', 'Dog', 'Owner', 'x', 'x1', 'Name', 'Id', 'ID', 'n_2', '_t', '_', 'a_b_c', 'Z9', 'R', 'Rx', 'r1', 'R_1',
          'C', 'c1', 'Key', 'val', 'Kind', 'Type', 'class', 'None', 'self', 'q', 'W', 'E1', 'long_identifier_name_0123456789']
 CARDWORDS = ['M', 'MC', 'm', 'mc', 'Mc']
+# words that are NOT reserved by the loader but are keywords of SQL dialects, of the grammar's neighbourhood or of the type
+# vocabulary: identifiers as good as any other (a loader that starts to reserve one of them must keep reading it as a name)
+NEAR_KEYWORDS = ['NULL', 'NIL', 'NONE', 'DEFAULT', 'KEY', 'PRIMARY', 'FOREIGN', 'REFERENCES', 'NOT', 'AND', 'OR', 'IS', 'IN', 'AS',
+                 'BY', 'SELECT', 'DELETE', 'UPDATE', 'DROP', 'ALTER', 'WHERE', 'SET', 'ADD', 'COLUMN', 'CONSTRAINT', 'CHECK',
+                 'BEGIN', 'END', 'COMMIT', 'VALUE', 'ID', 'REF', 'ROP_ID', 'REFID', 'REL', 'UNIQUE_INDEX', 'TABLES', 'IDENTIFIER',
+                 'INTEGER', 'STRING', 'REAL', 'BOOLEAN', 'UNIQUE_ID', 'INT', 'BOOL', 'FLOAT', 'TEXT', 'DATE', 'TIMESTAMP',
+                 'INST_REF', 'VOID', 'SAME_AS', 'YES', 'NO', 'T', 'F', 'INF', 'NAN', 'E', 'X', 'URN', 'UUID']
 
 # text that is NOT in Unicode normal form C (combining sequences, compatibility-equivalent signs, decomposed Hangul jamo, NFD
 # forms of precomposed letters): a loader that normalises its input alters it
@@ -82,6 +89,14 @@ def gen_identifier(rng, taken_upper):
             name = first + ''.join(rng.choice('abcXYZ019_') for _ in range(rng.randint(0, 6)))
         if bad_identifier(name) or name.upper() in taken_upper:
             continue
+        # one name in twelve becomes a near-keyword in some letter case; drawn from a PRNG of its own (forked on what was drawn
+        # so far), so that all other names stay what they were
+        if hasattr(rng, 'fork'):
+            side = rng.fork('near-keyword', name, len(taken_upper), '/'.join(sorted(taken_upper))[:200])
+            if side.random() < 1 / 12.0:
+                alt = _case_variant(side, side.choice(NEAR_KEYWORDS + ['NULL'] * 6))
+                if alt.upper() not in taken_upper and not bad_identifier(alt):
+                    name = alt
         taken_upper.add(name.upper())
         return name
     i = 0
